@@ -333,6 +333,8 @@ pub struct RunCfg {
     pub variants: BTreeMap<usize, Vec<usize>>,
     pub mask: bool,
     pub tasks: u8,
+    /// callers' memory between two inaccessible pages instead of canary zones
+    pub strict_arena: bool,
 }
 
 impl RunCfg {
@@ -342,7 +344,7 @@ impl RunCfg {
             let fam = &reg.families[*f];
             m.insert(fam.name.to_string(), json!(vs.iter().map(|&v| fam.variants[v].variant).collect::<Vec<_>>()));
         }
-        json!({"mask_aes": self.mask, "tasks": self.tasks, "variants": Value::Object(m)})
+        json!({"mask_aes": self.mask, "tasks": self.tasks, "strict_arena": self.strict_arena, "variants": Value::Object(m)})
     }
     pub fn from_json(v: &Value, reg: &Registry) -> Option<RunCfg> {
         let mut variants = BTreeMap::new();
@@ -355,7 +357,12 @@ impl RunCfg {
             }
             variants.insert(f, idx);
         }
-        Some(RunCfg { variants, mask: v.get("mask_aes")?.as_bool()?, tasks: v.get("tasks")?.as_u64()? as u8 })
+        Some(RunCfg {
+            variants,
+            mask: v.get("mask_aes")?.as_bool()?,
+            tasks: v.get("tasks")?.as_u64()? as u8,
+            strict_arena: v.get("strict_arena").and_then(|x| x.as_bool()).unwrap_or(false),
+        })
     }
 }
 
@@ -408,6 +415,7 @@ stats_struct!(
     f_place_touching,
     f_place_arena_end,
     f_place_zero_len,
+    f_place_strict_arena_end,
     // reach probes
     r_soft_arm_clone,
     r_soft_arm_conv,
@@ -479,7 +487,7 @@ impl<'a> World<'a> {
         let mut slots = Slots::new();
         let scratch_a = slots.alloc(0);
         let scratch_b = slots.alloc(0);
-        let mut arena = Arena::new();
+        let mut arena = Arena::with_mode(cfg.strict_arena);
         let mut p = crate::prng::Prng::new(canary_seed ^ 0xA11C_E0DD_BA11_F00D);
         arena.fill(&mut |b| p.fill(b));
         cpufeatures::sim::bump_epoch();
@@ -1050,6 +1058,9 @@ impl<'a> World<'a> {
         }
         if len > 0 && (in_off + len == ARENA_BYTES || out_off + len == ARENA_BYTES) {
             self.stats.f_place_arena_end += 1;
+            if self.arena.is_strict() {
+                self.stats.f_place_strict_arena_end += 1;
+            }
         }
         if inst.relocated {
             self.stats.f_relocate_then_call += 1;
